@@ -141,6 +141,8 @@ def eval_case(ctx, case):
     pts = faults.crash_points(log, dense)
     if "only" in case:
         pts = [p for p in pts if list(p) == list(case["only"])]
+    if case.get("interrupt"):
+        pts = []   # (the replay of one interruption point)
     seen = set()
     v = []
     n = 0
@@ -157,6 +159,28 @@ def eval_case(ctx, case):
             one = dict(case, only=[k, tear], only_lose=lose)
             lab = faults.label(log, k, tear) + (" (unflushed data of open files lost)" if lose else "")
             v += judge_state(ctx, sc, crash, lab, base, final, one)
+    # the other way a run is interrupted: from inside (Ctrl-C, a failing write) - an exception unwinds the interpreter, finally
+    # blocks and context managers run, open files are flushed and closed.  Every operation of the log is an interruption point
+    # (a write also half-way); the tree that is left is judged like a crash state.
+    if "second" not in case and "only" not in case or case.get("interrupt"):
+        ipts = []
+        for k in range(len(log)):
+            ipts.append((k, None))
+            if log[k][0] == "write" and len(log[k][2]) > 1 and (log[k][1].endswith(".xml") or log[k][1].endswith(".tmp") or log[k][1].endswith(".mhl")):
+                ipts.append((k, len(log[k][2]) // 2))
+        if case.get("interrupt"):
+            ipts = [p for p in ipts if list(p) == list(case["interrupt"])]
+        for k, tear in ipts:
+            r2, log2, state = faults.record(ctx, sc["pre"], sc["op"], now, interrupt_at=(k, tear))
+            key = "i" + engine.canon(state) + str(hash(frozenset((p, c) for p, c in state.items() if ref.is_in_ascmhl(p))))
+            if key in seen or state == final or state == sc["pre"]:
+                continue
+            seen.add(key)
+            n += 1
+            one = dict(case, interrupt=[k, tear])
+            o = log[k]
+            lab = f"interrupted (KeyboardInterrupt) before op {k + 1}/{len(log)}: {o[0]} {o[1]}" + (f" after {tear} bytes" if tear else "")
+            v += judge_state(ctx, sc, state, lab, base, final, one)
     return v, n, len(log), len(pts)
 
 
